@@ -264,6 +264,7 @@ func (e *env) startStore(savepointURI string) error {
 			}
 		}
 	}(e.stop, e.exited)
+	e.gl.Note(LocEvent{Op: "store-start"})
 	e.spl = &splitter{}
 	e.store = snapshots.NewStore(&snapshots.NewStoreParams{
 		SavepointURI: savepointURI, FileStore: e.gl, SavepointsPath: spPath, CheckpointsPath: ckPath,
